@@ -1900,7 +1900,7 @@ static int64_t eval2(Node *node, char ***label) {
       switch (node->ty->size) {
       case 1: return node->ty->is_unsigned ? (uint8_t)val : (int8_t)val;
       case 2: return node->ty->is_unsigned ? (uint16_t)val : (int16_t)val;
-      case 4: return node->ty->is_unsigned ? (uint32_t)val : (int32_t)val;
+      case 4: return node->ty->is_unsigned ? (int64_t)(uint32_t)val : (int64_t)(int32_t)val;
       }
     }
     return val;
